@@ -42,7 +42,12 @@ def jobs(tier):
         for g_, fast in (("complete-1", False), ("complete-1", True), ("MIXED1", False), ("GC2", True)):
             add(side="wide", graphname=g_, L=64, fast=fast, pattern="max", table=False, vt=0, k=1, real_arith=True)
         add(side="wide", graphname="MIXED1", L=65, fast=False, pattern="mix", table=False, vt=2, k=1, real_arith=True)
+        add(side="edit", graphname="MIXED1", L=3, fast=False, k=1)
+        add(side="edit", graphname="GC2", L=3, fast=True, k=2)
     else:
+        add(side="edit", graphname="MIXED1", L=4, fast=False, k=1)
+        add(side="edit", graphname="GC2", L=4, fast=True, k=2)
+        add(side="edit", graphname="GC2", L=3, fast=False, k=2)
         # ordered from cheap to expensive: when the time budget ends, the unfinished tail is reported as not covered (PARTIAL)
         for g_, fast in (("complete-1", False), ("complete-1", True), ("MIXED1", False), ("GC2", True), ("GC2", False)):
             for L in (54, 64, 65, 128):
@@ -79,7 +84,7 @@ def jobs(tier):
 def bounds(tier):
     js = jobs(tier)
     wide = [j for j in js if j.get("side") == "wide"]
-    js = [j for j in js if j.get("side") != "wide"]
+    js = [j for j in js if j.get("side") not in ("wide", "edit")]
     return {"wide messages": "L in %s bits as numpy arrays on concrete graphs, 5 free bits enumerated, real string arithmetic (machine-number regimes 2^53 / 2^63)" % sorted(set(j["L"] for j in wide)),
             "orders_k": sorted(set(j["k"] for j in js)), "max_message_bits": max(j["L"] for j in js),
             "graphs": "all 2^(4^(k+1)) arc subsets per order (symbolic)", "start": "all 4^k vertices (symbolic)",
@@ -141,9 +146,57 @@ def body_wide(e, L, cfg):
     return {"status": "ok", "sample": {"wide": n, "graph": cfg["graphname"], "fast": cfg["fast"], "strand_length": len(ref)}}
 
 
+def body_edit(e, L, cfg):
+    """history on a shared graph object: round trip, then the caller thins the graph IN PLACE (as remove_nasty_arc does), then
+    round trip again on the same object -- both must return the message (no stale per-object state)."""
+    from symx import scenarios, symnp
+    rows = {"MIXED1": scenarios.MIXED1, "GC2": scenarios.GC2}[cfg["graphname"]]
+    bs = oracles.bits(cfg["L"])
+    e.assume(oracles.bits_constraints(bs))
+    live = [v for v in range(len(rows)) if any(x >= 0 for x in rows[v])]
+    sv = z3.Int("start")
+    e.assume(z3.Or([sv == v for v in live]))
+    start = e.concretize(sv)
+    acc = symnp.array(rows)
+    msg = symnp.Arr.new([core.SymInt(b) for b in bs], (len(bs),), symnp.INT)
+    fast = bool(cfg.get("fast"))
+
+    def cex(m, stage):
+        return {"kind": "coding_edit", "acc": [list(r) for r in rows], "bits": [m.eval(b, model_completion=True).as_long() for b in bs], "start": start, "fast": fast, "stage": stage}
+    for stage in (0, 1):
+        if stage == 1:
+            for v in range(len(rows)):
+                lv = [j for j in range(4) if rows[v][j] >= 0]
+                if len(lv) >= 2:
+                    acc[v, lv[-1]] = -1
+                    break
+        try:
+            strand = L.encode(msg, acc, start, is_faster=fast)
+            out = L.decode(strand, cfg["L"], acc, start, is_faster=fast)
+        except core.Abort:
+            raise
+        except ValueError as ex:
+            if any(str(ex).startswith(p) for p in coding.EXPECTED_ENCODE_ERRORS):
+                return {"status": "skip", "why": str(ex)}
+            r, m = e.check()
+            return {"status": "viol", "why": "stage %d raised ValueError: %s" % (stage, ex), "cex": cex(m, stage)}
+        except Exception as ex:
+            r, m = e.check()
+            return {"status": "viol", "why": "stage %d raised %s" % (stage, type(ex).__name__), "cex": cex(m, stage)}
+        good = z3.And([zint(o) == b for o, b in zip(out.fix_len().elems(), bs)])
+        r, m = e.check(z3.Not(good))
+        if r == "sat":
+            return {"status": "viol", "why": "round trip fails %s the in-place edit of the shared graph" % ("after" if stage else "before"), "cex": cex(m, stage)}
+        if r != "unsat":
+            return {"status": "inconclusive", "why": "solver unknown"}
+    return {"status": "ok", "sample": {"history": "round trip, in-place edit, round trip", "graph": cfg["graphname"], "start": start}}
+
+
 def body(e, L, cfg):
     if cfg.get("side") == "wide":
         return body_wide(e, L, cfg)
+    if cfg.get("side") == "edit":
+        return body_edit(e, L, cfg)
     g, bs, start, tab = coding.universe(e, cfg)
     kind, val = coding.run_encode(e, L, cfg, g, bs, start, tab)
     if kind == "skip":
